@@ -288,7 +288,7 @@ func Run(r *vf.Run) {
 	}
 	for i := 0; i < len(std); i += 3 {
 		part := std[i:min(len(std), i+3)]
-		addReal("std:"+strings.Join(part, ","), func() ([]*packages.Package, error) { return corpus.Load("/repo", false, part...) })
+		addReal("std:"+strings.Join(part, ","), func() ([]*packages.Package, error) { return corpus.Load(vf.Repo(), false, part...) })
 	}
 	repoPats := []string{"./pattern", "./unused", "./go/ir", "./lintcmd/...", "./analysis/..."}
 	if r.Thorough() {
@@ -296,12 +296,12 @@ func Run(r *vf.Run) {
 	}
 	for _, p := range repoPats {
 		p := p
-		addReal("repo:"+p, func() ([]*packages.Package, error) { return corpus.Load("/repo", true, p) })
+		addReal("repo:"+p, func() ([]*packages.Package, error) { return corpus.Load(vf.Repo(), true, p) })
 	}
 	if r.Thorough() {
-		for _, td := range corpus.TestdataDirs("/repo") {
+		for _, td := range corpus.TestdataDirs(vf.Repo()) {
 			td := td
-			addReal("testdata:"+strings.TrimPrefix(td[0], "/repo/"), func() ([]*packages.Package, error) { return corpus.LoadTestdata(td[0], td[1]) })
+			addReal("testdata:"+strings.TrimPrefix(td[0], vf.Repo()+"/"), func() ([]*packages.Package, error) { return corpus.LoadTestdata(td[0], td[1]) })
 		}
 	}
 	type result struct {
